@@ -6,7 +6,7 @@ from pyvc.engine import Contract, OpaqueClass
 from pyvc.loops import LoopSpec
 from pyvc import models as M
 from pyvc import strs
-from pyvc.state import RaiseSig
+from pyvc.state import RaiseSig, ContractError
 
 DEPENDS = ('std',)
 
@@ -180,9 +180,17 @@ def register_c09(E):
         ones, with text/plain otherwise"""
         m = I.resolve(ctx, mimetype)
         sup = ['text/html', 'application/json', 'text/plain', 'application/xml']
+        if isinstance(m, VObj):
+            # the (boxed) answer of best_match: None or a string
+            from pyvc.values import unbox_str
+            sz = unbox_str(m.z)
+            chosen = z3.If(z3.And(m.z != Z.NONE, z3.Or(*[sz == z3.StringVal(x) for x in sup])), sz, z3.StringVal('text/plain'))
+            return VBool(z3.PrefixOf(chosen, ct.z))
         if isinstance(m, VNone):
             return VBool(z3.PrefixOf(z3.StringVal('text/plain'), ct.z))
         mz = m.z
+        if mz.sort() != Z.Str or ct.z.sort() != Z.Str:
+            raise ContractError('CT_AGREES: mimetype %r / content type %r are not strings' % (m, ct))
         chosen = z3.If(z3.Or(*[mz == z3.StringVal(s) for s in sup]), mz, z3.StringVal('text/plain'))
         return VBool(z3.PrefixOf(chosen, ct.z))
 
@@ -197,3 +205,72 @@ def register_c09(E):
     # T: status table, by evaluation on the imported module
     codes = E.refl['modules']['clastic.errors']['consts']
     E.c09_ready = True
+
+
+def register_negotiation(E):
+    """ErrorHandler.render_error / default_render_error (C09): the format is the best match of the request's
+    Accept header over the supported types -- not the client's first preference, not a fixed format."""
+    I = E.interp
+    supported = [k['v'] if isinstance(k, dict) else k for k in
+                 (E.refl['modules']['clastic.errors']['consts'].get('MIME_SUPPORT_MAP', {'v': {}})['v'] or {})]
+
+    def best_match_model(I, ctx, am, offered=None, default=None):
+        """A-wz-req: MIMEAccept.best_match(offered) returns one of the offered types or None (the default)"""
+        from pyvc.values import box_str, unbox_str
+        bm = Z.func('BEST_MATCH', Z.Obj, Z.Obj)(am.z)       # one answer per Accept header (pure in the request)
+        r = unbox_str(bm)
+        isnone = bm == Z.NONE
+        try:
+            names = [x.const() for x in I.iter_concrete(ctx, I.resolve(ctx, offered))]
+        except Exception:
+            names = None
+        if names:
+            ctx.assume(z3.Or(isnone, *[bm == box_str(z3.StringVal(n)) for n in names]))
+        res = VOpt(isnone, VStr(r))
+        ctx.trace.append(('best_match', am, names, res))
+        return VObj(bm)
+    E.add_opaque(OpaqueClass('MIMEAccept', methods={'best_match': best_match_model}, truthy=None))
+    E.opaque['Request'].attrs['accept_mimetypes'] = TObj('MIMEAccept', inv=lambda a: a != Z.NONE)
+
+    @E.spec('NEGOTIATED')
+    def NEGOTIATED(I, ctx, request, chosen):
+        """`chosen` is what request.accept_mimetypes.best_match(<the supported types>) returned, asked once"""
+        evs = [e for e in ctx.trace if e[0] == 'best_match']
+        if len(evs) != 1 or evs[0][2] is None or sorted(evs[0][2]) != sorted(SUPPORTED_TYPES):
+            return VBool(False)
+        am = ctx.attr_read('Request.accept_mimetypes', Z.Obj, box(I.resolve(ctx, request), ctx))
+        res = evs[0][3]
+        ch = chosen
+        if isinstance(ch, VObj):
+            from pyvc.values import unbox_str
+            return VBool(Z.And(evs[0][1].z == am, (ch.z == Z.NONE) == res.isnone,
+                               z3.Implies(Z.Not(res.isnone), unbox_str(ch.z) == res.val.z)))
+        if not isinstance(ch, VOpt):
+            ch = I.resolve(ctx, ch)
+            if isinstance(ch, VNone):
+                same = res.isnone
+            elif isinstance(ch, VStr):
+                same = Z.And(Z.Not(res.isnone), ch.z == res.val.z)
+            else:
+                return VBool(False)
+        else:
+            same = Z.And(ch.isnone == res.isnone, z3.Implies(Z.Not(res.isnone), ch.val.z == res.val.z))
+        return VBool(Z.And(evs[0][1].z == am, same))
+    E.specns['NEGOTIATED'].keep_opt = True
+
+    TErr = TInst('clastic.errors.HTTPException',
+                 {'code': TOpt(TInt), 'message': TStr, 'detail': TStr, 'error_type': TOpt(TStr),
+                  'headers': TDict(TStr, TStr), 'charset': TStr, 'data': TBytes})
+    at = {'clastic.errors.HTTPException.adapt': ['len(_args) == 1 and NEGOTIATED(request, _args[0])']}
+    E.add_contract(Contract(
+        'clastic.errors.ErrorHandler.render_error',
+        params={'self': TInst('clastic.errors.ErrorHandler', {}), 'request': TObj('Request'), '_error': TErr},
+        at_call=at, ensures=['result is _error'], returns=TObj(), prop=['C09']))
+    E.add_contract(Contract(
+        'clastic.application.default_render_error',
+        params={'request': TObj('Request'), '_error': TErr, 'kwargs': TDict(TStr, TObj())},
+        at_call=at, ensures=['result is _error'], returns=TObj(), prop=['C09']),
+        key='clastic.application.default_render_error#verify')
+
+
+SUPPORTED_TYPES = ['text/html', 'application/json', 'text/plain', 'application/xml']
